@@ -308,8 +308,7 @@ private:
             typename PaletteImage::view_t>
         >(view(indices), 0);
 
-      read_palette_image(dst_view, view(indices),
-          typename std::is_same<View, rgb16_view_t>::type());
+      read_palette_image(dst_view, view(indices));
    }
 
    template< typename View
@@ -317,7 +316,6 @@ private:
            >
    void read_palette_image( const View&         dst_view
                           , const Indices_View& indices_view
-                          , std::true_type   // is View rgb16_view_t
                           )
    {
       tiff_color_map::red_t   red   = nullptr;
@@ -340,35 +338,29 @@ private:
 
       // the destination may be larger than the picture (check_image_size admits that): only the part
       // that has indices is written
-      typename rgb16_view_t::y_coord_t const height = (std::min)( dst_view.height(), indices_view.height() );
-      typename rgb16_view_t::x_coord_t const width  = (std::min)( dst_view.width() , indices_view.width()  );
+      typename View::y_coord_t const height = (std::min)( dst_view.height(), indices_view.height() );
+      typename View::x_coord_t const width  = (std::min)( dst_view.width() , indices_view.width()  );
 
-      for( typename rgb16_view_t::y_coord_t y = 0; y < height; ++y )
+      // The colors of a row are looked up into a buffer of the file's native pixel type (rgb16) and handed to
+      // the conversion policy like every other row: a converting read used to be refused for every destination
+      // but rgb16 ("User supplied image type must be rgb16_image_t.")
+      std::vector< rgb16_pixel_t > row( static_cast< std::size_t >( width ));
+
+      for( typename View::y_coord_t y = 0; y < height; ++y )
       {
-         typename rgb16_view_t::x_iterator it  = dst_view.row_begin( y );
-         typename rgb16_view_t::x_iterator end = it + width;
-
          typename Indices_View::x_iterator indices_it = indices_view.row_begin( y );
 
-         for( ; it != end; ++it, ++indices_it )
+         for( typename View::x_coord_t x = 0; x < width; ++x, ++indices_it )
          {
             uint16_t i = gil::at_c<0>( *indices_it );
 
-            *it = palette[i];
+            row[x] = palette[i];
          }
-      }
-   }
 
-   template< typename View
-           , typename Indices_View
-           >
-   inline
-   void read_palette_image( const View&         /* dst_view     */
-                          , const Indices_View& /* indices_view */
-                          , std::false_type  // is View rgb16_view_t
-                          )
-   {
-      io_error( "User supplied image type must be rgb16_image_t." );
+         this->_cc_policy.read( row.begin()
+                              , row.end()
+                              , dst_view.row_begin( y ));
+      }
    }
 
    template< typename Buffer >
